@@ -418,6 +418,9 @@ def _tlc_trace(ctx, module, tracefile, header=0, shards=8, timeout=1800, cfg=Non
     head, body = lines[:header], lines[header:]
     if not body:
         return [], lines
+    # a shard is read into one JVM as a whole: no more than ~24 MB of events each, and at most 8 JVMs (3 GB heaps) at a time
+    nbytes = sum(len(x) for x in body)
+    shards = max(shards, -(-nbytes // (24 << 20)))
     shards = max(1, min(shards, len(body) // 50 or 1))
     cuts = [0]
     per = len(body) / shards
@@ -434,7 +437,7 @@ def _tlc_trace(ctx, module, tracefile, header=0, shards=8, timeout=1800, cfg=Non
     for s in range(len(cuts) - 1):
         jobs.append((ctx, module, cfg, d, head, body[cuts[s]:cuts[s + 1]], s, header + cuts[s], timeout, extra_files))
     t0 = time.time()
-    with ThreadPoolExecutor(max_workers=min(16, len(jobs))) as ex:
+    with ThreadPoolExecutor(max_workers=min(16 if nbytes < (200 << 20) else 8, len(jobs))) as ex:
         results = list(ex.map(_one_trace, jobs))
     rejects = []
     for r in results:
